@@ -307,6 +307,64 @@ pub fn serial_survey(scn: &Arc<Scenario>, limit: usize) -> (usize, usize, usize,
     (orders.len(), p, b, msg)
 }
 
+/// Is the scenario inside the domain in which every transaction must terminate whatever the
+/// others do: every vertex of a linked in-use dart has coordinates, and no operation removes
+/// coordinates or attribute values? (The kernels deliberately wait — `retry()` — for a value that
+/// is missing; on such a map nothing is missing, and nothing goes missing.)
+pub fn nothing_to_wait_for(scn: &Scenario) -> bool {
+    use crate::ops::Op;
+    let s = &scn.init;
+    let pv = s.partition(0);
+    let embedded = (1..s.n() as u32).all(|d| s.unused[d as usize] || s.is_free(d) || s.vtx[pv[d as usize] as usize].is_some());
+    // (links and unlinks change cells without moving their data: they leave vertices without
+    // coordinates behind, like the removals)
+    let removes = scn.threads.iter().flatten().flat_map(|t| t.ops.iter()).any(|o| matches!(o, Op::RemoveV { .. } | Op::RemoveA { .. } | Op::RemoveDartTx { .. } | Op::Link { .. } | Op::Unlink { .. }));
+    // spare darts handed to kernels: free in-use darts, none null, none handed out twice (the
+    // cuts and triangulations take "free darts" on trust)
+    let mut seen = std::collections::BTreeSet::new();
+    let spares_ok = scn.threads.iter().flatten().flat_map(|t| t.ops.iter()).all(|o| {
+        let nd: Vec<u32> = match o {
+            Op::InsertVertex { nd, .. } => vec![nd.0, nd.1],
+            Op::InsertVertices { nd, .. } | Op::Fan { nd, .. } | Op::FanConvex { nd, .. } | Op::EarclipCcw { nd, .. } | Op::EarclipCw { nd, .. } => nd.clone(),
+            Op::CutOuter { nd, .. } => nd.to_vec(),
+            Op::CutInner { nd, .. } => nd.to_vec(),
+            _ => vec![],
+        };
+        nd.iter().all(|&x| x != 0 && (x as usize) < s.n() && !s.unused[x as usize] && s.is_free(x) && seen.insert(x))
+    });
+    embedded && !removes && spares_ok && scn.pre.is_empty()
+}
+
+/// A serial order is an interleaving like any other. Looks for one in which every other thread
+/// has run to completion and a transaction of the remaining thread then never finishes: nobody
+/// is left to write whatever it waits for, so the threads do not all terminate. Returns the
+/// order and the position of the stuck transaction.
+pub fn stuck_when_run_last(scn: &Arc<Scenario>) -> Option<(Vec<(usize, usize)>, usize)> {
+    for last in 0..scn.threads.len() {
+        let mut order: Vec<(usize, usize)> = vec![];
+        for (t, txs) in scn.threads.iter().enumerate() {
+            if t != last {
+                order.extend((0..txs.len()).map(|i| (t, i)));
+            }
+        }
+        let first_of_last = order.len();
+        order.extend((0..scn.threads[last].len()).map(|i| (last, i)));
+        if !matches!(run_serial(scn.clone(), order.clone()), SerialOutcome::Blocks) {
+            continue;
+        }
+        // where? shortest prefix that blocks
+        for k in 1..=order.len() {
+            if matches!(run_serial(scn.clone(), order[..k].to_vec()), SerialOutcome::Blocks) {
+                if k - 1 >= first_of_last {
+                    return Some((order, k - 1));
+                }
+                break;
+            }
+        }
+    }
+    None
+}
+
 #[derive(Clone, Copy, PartialEq, Eq, Debug)]
 pub enum Symptom {
     Panics,
